@@ -2,6 +2,7 @@ import XmppModel.Model.Payload
 import XmppModel.Model.Form
 import XmppModel.Lemmas.Payload
 import XmppModel.Lemmas.Form
+import XmppModel.Generated.C19
 /-!
 # C19 — extension payloads encode consistently, safely and round-trip
 
@@ -40,6 +41,28 @@ example : balanced [Tok.start ⟨"", "a"⟩ [], Tok.stop ⟨"", "a"⟩] = true :
 theorem C19_unbalanced_rejected :
     balancedSkel (.seq .startTok .chars) = false ∧
     balanced [Tok.start ⟨"", "a"⟩ [], Tok.chars "x"] = false := by decide
+
+/-- the skeleton of every writer found in the anchored files (regenerated from the source
+on every run) is built from nesting-preserving combinators only … -/
+theorem C19_all_writers_balanced :
+    ∀ w ∈ Generated.C19.writers, balancedSkel w.2 = true := by decide
+
+/-- … and every writer the property names is present with a balanced skeleton -/
+theorem C19_required_writers_balanced :
+    ∀ r ∈ Generated.C19.required, ∃ s, r.2 = some s ∧ balancedSkel s = true := by
+  intro r hr
+  have h : ∀ r ∈ Generated.C19.required, (match r.2 with | some s => balancedSkel s | none => false) = true := by decide
+  have := h r hr
+  cases h2 : r.2 with
+  | none => simp [h2] at this
+  | some s => exact ⟨s, rfl, by simpa [h2] using this⟩
+
+/-- so every token stream such a writer can produce (its `ext` parts being balanced) is balanced -/
+theorem C19_writers_sound (w : String × Skel) (hw : w ∈ Generated.C19.writers) (ts : List Tok)
+    (hg : Gen w.2 ts) : balanced ts = true :=
+  C19_balanced w.2 ts (C19_all_writers_balanced w hw) hg
+
+example : Generated.C19.writers.length ≥ 50 := by decide
 
 /-- every element tree flattens to a balanced token stream -/
 theorem C19_tree_balanced (n : Node) : balanced (flatten n) = true :=
